@@ -729,6 +729,8 @@ func dependsOnValue(v ssa.Value, target ssa.Value, d int) bool {
 		return dependsOnValue(x.X, target, d+1)
 	case *ssa.FieldAddr:
 		return dependsOnValue(x.X, target, d+1)
+	case *ssa.TypeAssert:
+		return dependsOnValue(x.X, target, d+1)
 	case *ssa.BinOp:
 		return dependsOnValue(x.X, target, d+1) || dependsOnValue(x.Y, target, d+1)
 	case *ssa.Call:
@@ -1040,20 +1042,26 @@ func ruleFormats(c *Ctx, k2, k3 string) {
 			continue
 		}
 		fname := ""
-		for v, a := range lr.Action.env {
-			_ = v
-			if a != nil && a.kind == "global" && namedTypeName(a.global.Type()) == "Format" {
-				fname = a.global.Name()
+		// the Format the factory was given: directly, in a preferences literal evaluated from
+		// the factory body, or captured by a function value handed on to a generic factory
+		var findFormat func(env map[*types.Var]*absVal, d int)
+		findFormat = func(env map[*types.Var]*absVal, d int) {
+			if d > 3 {
+				return
 			}
-			// prefs struct literal evaluated from the factory body
-			if a != nil && a.kind == "opaque" && a.env != nil {
-				for _, a2 := range a.env {
-					if a2 != nil && a2.kind == "global" && namedTypeName(a2.global.Type()) == "Format" {
-						fname = a2.global.Name()
-					}
+			for _, a := range env {
+				if a == nil {
+					continue
+				}
+				if a.kind == "global" && namedTypeName(a.global.Type()) == "Format" {
+					fname = a.global.Name()
+				}
+				if (a.kind == "opaque" || a.kind == "closure") && a.env != nil {
+					findFormat(a.env, d+1)
 				}
 			}
 		}
+		findFormat(lr.Action.env, 0)
 		key := fmt.Sprintf("lexer-rule[%q]", lr.Pattern)
 		fi := formats[fname]
 		switch {
